@@ -516,7 +516,7 @@ def parse_host(
         # IPv6 address with a port
         pos = host.rfind(']:')
         if pos != -1:
-            return (host[1:pos], int(host[pos + 2 :]))
+            return (host[1:pos], _parse_port(host[pos + 2 :], default_port))
         else:
             return (host[1:-1], default_port)
 
@@ -529,7 +529,17 @@ def parse_host(
     # only a single colon, so we should have an IPv4 address
     # or a domain name plus a port
     name, _, port = host.partition(':')
-    return (name, int(port))
+    return (name, _parse_port(port, default_port))
+
+
+def _parse_port(port: str, default_port: Optional[int]) -> Optional[int]:
+    # NOTE: The port may legitimately be empty (RFC 3986, Section 3.2.3) or, in
+    #   a Forwarded node, obfuscated (RFC 7239, Section 6.3); a port that is not
+    #   a number is treated as not specified instead of leaking a ValueError.
+    try:
+        return int(port)
+    except ValueError:
+        return default_port
 
 
 def unquote_string(quoted: str) -> str:
